@@ -24,12 +24,14 @@ class StoreState:
         self.journal = []       # (proc, op, name, size or None)
         self.commits = 0        # number of mutation commits ever applied
         self.frozen = False
+        self.payload_log = None  # optional: every (name, bytes) ever uploaded
 
     def copy(self):
         c = StoreState()
         c.objects = dict(self.objects)
         c.journal = list(self.journal)
         c.commits = self.commits
+        c.payload_log = None if self.payload_log is None else list(self.payload_log)
         return c
 
 
@@ -139,6 +141,8 @@ class _Base:
         else:
             st.objects[name] = data
             st.journal.append((self.profile.proc, 'upload', name, len(data)))
+            if st.payload_log is not None:
+                st.payload_log.append((name, data))
             self.uploads.append(name)
             if name.startswith('data/'):
                 self.payload_uploaded += len(data)
